@@ -366,3 +366,202 @@ def cdata_unwrap(s):
     """what an XML parser reads back from text in which CDATA sections were left unescaped"""
     import re
     return re.sub(r"<!\[CDATA\[(.*?)\]\]>", lambda m: m.group(1), s, flags=re.S)
+
+
+# ------------------------------------------------------------ schema-conforming objects (C02/C03)
+def regex_sample(rng, pattern, tries=40):
+    """a random string matching an XSD pattern (the dialect used by the NeuroML schema), via sre_parse"""
+    import re
+    try:
+        import re._parser as sre_parse
+    except ImportError:     # pragma: no cover
+        import sre_parse
+
+    def gen(items):
+        out = []
+        for op, arg in items:
+            op = str(op)
+            if op == "LITERAL":
+                out.append(chr(arg))
+            elif op == "NOT_LITERAL":
+                out.append("x" if chr(arg) != "x" else "y")
+            elif op == "IN":
+                choices = []
+                neg = False
+                for o2, a2 in arg:
+                    o2 = str(o2)
+                    if o2 == "LITERAL":
+                        choices.append(chr(a2))
+                    elif o2 == "RANGE":
+                        choices += [chr(c) for c in range(a2[0], min(a2[1], a2[0] + 40) + 1)]
+                    elif o2 == "CATEGORY":
+                        c = str(a2)
+                        choices += {"CATEGORY_SPACE": [" "], "CATEGORY_DIGIT": list("0123456789"),
+                                    "CATEGORY_WORD": list("abcXYZ019_")}.get(c, ["a"])
+                    elif o2 == "NEGATE":
+                        neg = True
+                out.append(rng.choice(choices) if choices and not neg else "a")
+            elif op == "ANY":
+                out.append(rng.choice("abc1_"))
+            elif op in ("MAX_REPEAT", "MIN_REPEAT"):
+                lo, hi, sub = arg
+                hi = min(hi, lo + 3) if hi < 100000 else lo + 3
+                for _ in range(rng.randint(lo, hi)):
+                    out.append(gen(sub))
+            elif op == "SUBPATTERN":
+                out.append(gen(arg[-1]))
+            elif op == "BRANCH":
+                out.append(gen(rng.choice(arg[1])))
+            elif op == "CATEGORY":
+                c = str(arg)
+                out.append({"CATEGORY_SPACE": " ", "CATEGORY_DIGIT": rng.choice("0123456789")}.get(c, "a"))
+            elif op == "AT":
+                pass
+            else:
+                out.append("")
+        return "".join(out)
+    parsed = sre_parse.parse(pattern)
+    for _ in range(tries):
+        s = gen(parsed)
+        if re.fullmatch(pattern, s):
+            return s
+    return None
+
+
+class ValidGen:
+    """objects whose every member value is drawn from the value spaces the bundled XSD defines"""
+
+    def __init__(self, ir, rng, max_depth=3):
+        import neuroml.nml.nml as mod
+        self.mod, self.ir, self.rng, self.max_depth = mod, ir, rng, max_depth
+        self.XT = {t["name"]: t for t in ir.X["ctypes"]}
+        self.ST = {s["name"]: s for s in ir.X["stypes"]}
+
+    def xchain(self, t):
+        out = []
+        while t:
+            out.append(self.XT[t])
+            t = self.XT[t]["base"]
+        return list(reversed(out))
+
+    def simple_value(self, tname):
+        """-> python value for a simple type (schema simple type or xs:* builtin)"""
+        rng = self.rng
+        st = self.ST.get(tname)
+        base = tname
+        k = 0
+        while base in self.ST and k < 10:
+            base, k = self.ST[base]["base"], k + 1
+        if st is not None:
+            if st["enums"]:
+                v = rng.choice(st["enums"])
+                return float(v) if base in ("xs:double", "xs:float") else v
+            if st["patterns"]:
+                s = regex_sample(rng, rng.choice(st["patterns"]))
+                if s is not None:
+                    return s
+            if base in ("xs:double", "xs:float"):
+                lo = float(st["bounds"].get("minInclusive", st["bounds"].get("minExclusive", -5)))
+                hi = float(st["bounds"].get("maxInclusive", st["bounds"].get("maxExclusive", lo + 10)))
+                v = rng.choice([lo + (hi - lo) * f for f in (0.25, 0.5, 0.75, 1.0)])
+                if "minExclusive" in st["bounds"] and v <= lo:
+                    v = lo + 1.0
+                return v
+        if base in ("xs:nonNegativeInteger", "xs:unsignedInt"):
+            return rng.choice([0, 1, 2, 7, 100])
+        if base == "xs:positiveInteger":
+            return rng.choice([1, 2, 7, 100])
+        if base in ("xs:integer", "xs:int"):
+            return rng.choice([-3, 0, 1, 12])
+        if base in ("xs:double", "xs:float", "xs:decimal"):
+            return rng.choice([0.0, 1.0, -2.5, 0.125, 100.0])
+        if base == "xs:boolean":
+            return rng.choice([True, False])
+        return rng.choice(["a", "abc_1", "x y", "Z9"])
+
+    def counts(self, p, depth, acc, required_only):
+        """choose child counts per tag for a particle: acc[tag] += n"""
+        rng = self.rng
+        if p is None:
+            return
+        if p["k"] == "elem":
+            lo = p["lo"]
+            hi = lo if required_only else (lo + 2 if p["hi"] is None else min(p["hi"], lo + 2))
+            n = rng.randint(lo, max(lo, hi))
+            acc[p["tag"]] = acc.get(p["tag"], 0) + n
+            acc.setdefault("_types", {})[p["tag"]] = p["type"]
+        elif p["k"] == "any":
+            return
+        elif p["k"] in ("seq", "all"):
+            reps = 1 if p["lo"] >= 1 else (0 if required_only else rng.randint(0, 1))
+            for _ in range(reps):
+                for q in p["ps"]:
+                    self.counts(q, depth, acc, required_only)
+        elif p["k"] == "choice":
+            reps = p["lo"] if (required_only or p["hi"] == p["lo"]) else max(p["lo"], rng.randint(0, 1))
+            reps = min(reps, 1)       # member-grouped export cannot interleave repeated choices (C02 finding)
+            for _ in range(reps):
+                self.counts(rng.choice(p["ps"]), depth, acc, required_only)
+
+    def obj(self, tname, depth=0):
+        rng = self.rng
+        attrs, kids = self.ir.flat(tname)
+        byxml = {a["xml"]: a for a in attrs}
+        bytag = {k["tag"]: k for k in kids}
+        kw = {}
+        for t in self.xchain(tname):
+            for a in t["attrs"]:
+                fa = byxml.get(a["name"])
+                if fa is None:
+                    continue
+                if a["use"] == "required" or rng.random() < 0.5:
+                    v = self.simple_value(a["type"])
+                    if a.get("fixed") is not None:
+                        v = a["fixed"]
+                    kw[fa["member"]] = v
+            acc = {}
+            self.counts(t["content"], depth, acc, required_only=(depth >= self.max_depth))
+            types = acc.pop("_types", {})
+            for tag, n in acc.items():
+                fk = bytag.get(tag)
+                if fk is None or n == 0:
+                    continue
+                if fk["text"]:
+                    kw[fk["member"]] = self.simple_value(types[tag])
+                    continue
+                objs = [self.obj(types[tag], depth + 1) for _ in range(n)]
+                kw[fk["member"]] = objs if fk["container"] else objs[0]
+        return getattr(self.mod, tname)(**kw)
+
+
+_SCHEMA = {}
+
+
+def probe_schema():
+    """lxml XMLSchema of the bundled XSD plus one global element `probe_<Type>` per complex type"""
+    from lxml import etree
+    path, _ = emit_xsd.xsd_extract.current_xsd(fw.REPO)
+    key = (path, os.path.getmtime(path))
+    if key not in _SCHEMA:
+        doc = etree.parse(path)
+        root = doc.getroot()
+        XS = "{http://www.w3.org/2001/XMLSchema}"
+        for ct in root.findall(XS + "complexType"):
+            e = etree.SubElement(root, XS + "element")
+            e.set("name", "probe_" + ct.get("name"))
+            e.set("type", ct.get("name"))
+        _SCHEMA[key] = etree.XMLSchema(doc)
+    return _SCHEMA[key]
+
+
+def xsd_verdict(o, tname):
+    """(valid?, message) of libxml2 on the component written on its own as <probe_Type>"""
+    from lxml import etree
+    text = export_text(o, "probe_" + tname)
+    try:
+        root = etree.fromstring(text.encode("utf-8"))
+    except Exception as e:
+        return False, "not well-formed: %r" % (e,), text
+    sch = probe_schema()
+    ok = sch.validate(root)
+    return ok, (str(sch.error_log.last_error) if not ok else ""), text
